@@ -17,7 +17,8 @@ import RsslVerif.Model.Conv
 Templates are outside the model (`template_args = []`, no template parameters).
 
 ## Panics
-`get_rank` panics on a scalar → matrix conversion.  In the Rust code `get_rank` is evaluated lazily inside the
+`get_rank` has a `panic!` arm (reachable for scalar → matrix before /repo 368a51b, unreachable since:
+`Thm.C16.resolve_no_panic`).  The model keeps the panic path, so that this stays a theorem.  In the Rust code `get_rank` is evaluated lazily inside the
 loops; nevertheless *the call panics iff some viable candidate has a conversion whose `get_rank` panics*:
 with ≥ 2 viable candidates every candidate is compared against at least one other one and the inner `zip`
 loop over the arguments has no early exit, so every cast of every viable candidate is ranked; with exactly one
